@@ -119,7 +119,14 @@ def rule_eow(ctx, res):
 def rule_hooks(ctx, res):
     model = ctx.model
     c = model.cls(L + ':LuaFormatterWriter')
-    own = sorted(m for m in c.methods if not m.endswith('.setter'))
+    # a method overrides something when an ancestor defines the name, when
+    # the inherited walker can reach it by name (`_walk_<NodeType>` is looked
+    # up with getattr) or when it is a special method; a helper with a new
+    # name is only reachable from the class's own methods
+    ancestors = [k for k in model.mro(c)[1:] if hasattr(k, 'methods')]
+    own = sorted(m for m in c.methods if not m.endswith('.setter') and (
+        any(m in k.methods for k in ancestors) or m.startswith('_walk_')
+        or (m.startswith('__') and m.endswith('__'))))
     ok = set(own) == {'__init__', '_get_code_for_spaces'}
     res.check(ok, 'R-C09-hooks', c.qual, 'overrides only the spacing hook',
               'methods: {}'.format(own),
